@@ -35,6 +35,7 @@ def provider_model(C):
     for imp in provider_impls(F):
         m = PM()
         m.impl = imp
+        m.self_adt = canon(imp["self_ty"].split("<")[0])
         m.pay_root, m.pay = method_body(F, imp, "pay", lambda c: c.is_trait_method("rpc::ClnRpc", "pay"))
         m.wait_root, m.wait = method_body(F, imp, "wait_payment", lambda c: c.is_trait_method("rpc::ClnRpc", "listsendpays"))
         out.append(m)
@@ -220,7 +221,7 @@ def r6_verbatim(C, rep, rid):
                 ("bolt11 <- req.bolt11", req_field(d.get("bolt11"), "bolt11")),
                 ("maxfee <- Some(from_msat(req.max_fee_msat))", req_field(amount_of(some_of(d.get("maxfee"))), "max_fee_msat")),
                 ("maxdelay <- Some(req.max_cltv_delta)", req_field(some_of(d.get("maxdelay")), "max_cltv_delta")),
-                ("retry_for <- Some(self.retry_for)", (lambda e: e is not None and all(a[0] == "field" and a[1] == "retry_for" and a[4][0] == "param" for a in alts(e)))(some_of(d.get("retry_for")))),
+                ("retry_for <- Some(self.retry_for)", (lambda e: e is not None and all(a[0] == "field" and a[2].split("<")[0] == m.self_adt and a[4][0] == "param" for a in alts(e)))(some_of(d.get("retry_for")))),
                 ("amount_msat <- req.amount_msat.map(from_msat)", (lambda e: e is not None and e[0] == "call" and e[1] == "std::option::Option::map" and req_field(e[2][0], "amount_msat") and e[2][1] == ("fnitem", "cln_rpc::primitives::Amount::from_msat"))(d.get("amount_msat"))),
             ]
             for f in ("maxfeepercent", "exemptfee", "partial_msat"):
@@ -240,19 +241,42 @@ def c_retry_cap(C, rep, rid):
     rep.rule(rid, "retry_for = payment timeout in seconds, saturated at u16::MAX")
     F, X = C.F, C.X
     n = 0
+
+    def secs(x):
+        return x[0] == "call" and x[1] == "std::time::Duration::as_secs" and x[2][0][0] == "param"
+
+    def max16(x):
+        while x[0] == "cast":
+            x = x[4]
+        return (x[0] == "constdef" and x[1].endswith("<impl u16>::MAX")) or (x[0] == "const" and x[2] == 65535)
     for imp in provider_impls(F):
-        st = imp["self_ty"].split("<")[0]
-        for b, bi, s in F.aggregates(canon(st)):
-            if "retry_for" not in s["rv"]["fields"]:
+        st = canon(imp["self_ty"].split("<")[0])
+        # the field the provider forwards as PayRequest.retry_for (found from the forwarding site, not by its name)
+        fields = set()
+        for m in provider_model(C):
+            if m.self_adt != st:
+                continue
+            for bi in sorted(m.pay.reachable):
+                for s in m.pay.blocks[bi]["s"]:
+                    if s["k"] == "assign" and s["rv"]["k"] == "agg" and s["rv"].get("adt", "").endswith("::PayRequest") and "retry_for" in s["rv"]["fields"]:
+                        e = strip(X.operand(m.pay, s["rv"]["ops"][s["rv"]["fields"].index("retry_for")]))
+                        for y in walk(e):
+                            if y[0] == "field" and y[2].split("<")[0] == st and y[4][0] == "param":
+                                fields.add(y[1])
+        for b, bi, s in F.aggregates(st):
+            fl = [f for f in s["rv"]["fields"] if f in fields]
+            if not fl:
                 continue
             n += 1
-            e = strip(X.operand(b, s["rv"]["ops"][s["rv"]["fields"].index("retry_for")]))
+            e = strip(X.operand(b, s["rv"]["ops"][s["rv"]["fields"].index(fl[0])]))
             ok = False
             for a in alts(e):
-                ok = a[0] == "call" and a[1] == "std::result::Result::unwrap_or" and len(a[2]) == 2 and \
-                    a[2][0][0] == "call" and a[2][0][1] == "std::convert::TryInto::try_into" and \
-                    a[2][0][2][0][0] == "call" and a[2][0][2][0][1] == "std::time::Duration::as_secs" and a[2][0][2][0][2][0][0] == "param" and \
-                    ((a[2][1][0] == "constdef" and a[2][1][1].endswith("<impl u16>::MAX")) or (a[2][1][0] == "const" and a[2][1][2] == 65535))
+                # unwrap_or(u16::try_from / try_into(secs), u16::MAX)   or   min(secs, u16::MAX as u64) as u16
+                ok = (a[0] == "call" and a[1] == "std::result::Result::unwrap_or" and len(a[2]) == 2 and
+                      a[2][0][0] == "call" and a[2][0][1] in ("std::convert::TryInto::try_into", "std::convert::TryFrom::try_from") and
+                      secs(a[2][0][2][0]) and max16(a[2][1])) or \
+                     (a[0] == "cast" and a[3] == "u16" and a[4][0] == "call" and a[4][1] in ("std::cmp::Ord::min", "std::cmp::min") and len(a[4][2]) == 2 and
+                      ((secs(a[4][2][0]) and max16(a[4][2][1])) or (secs(a[4][2][1]) and max16(a[4][2][0]))))
                 if not ok:
                     break
             rep.ob(rid, ok, F.root_of(b), "retry_for = try_into(timeout.as_secs()).unwrap_or(u16::MAX)", where=loc(s["sp"]), how=show(e)[:90],
